@@ -147,7 +147,7 @@ func GenEStr(t *rapid.T, o Opts) Tok {
 
 // GenDStr draws a dollar-quoted literal.
 func GenDStr(t *rapid.T, o Opts) Tok {
-	tag := rapid.SampledFrom([]string{"", "", "a", "tag", "_x1", "T"}).Draw(t, "dtag")
+	tag := rapid.SampledFrom([]string{"", "", "a", "tag", "_x1", "T", "my_tag", "_", "t_1", "é", "名x"}).Draw(t, "dtag")
 	v := drawBody(t, o, "dbody", 5)
 	v = strings.ReplaceAll(v, "$", "")
 	return Tok{Kind: DStr, Text: "$" + tag + "$" + v + "$" + tag + "$", Value: v}
